@@ -29,6 +29,7 @@ EXPLANATION = (
     "decoded length >= 0 (returned cursor >= input cursor + prefix, <= len(data)); for each `for _ in range(count)` in "
     "a decoder every path through the body passes a checked primitive read."
     ' Also: the field readers slice the buffer with both bounds (R4: decoding n fields copies O(n) bytes).'
+    " The set iterator stops only in the underflow arm or where its loop condition is false (a complete minimal entry is never dropped), and the fetch reply decoder hands the message set over as the lazy iterator (the too-small signal is raised where the consumer's handler stands)."
 )
 SHARED = [('C05', ['R3'], 'the string readers hand back an advanced cursor on every path, so count-driven loops consume their input'), ('C05', ['R4'], 'compressed payloads are inflated by the library reader, which terminates (with an error) on a truncated stream'), ('C05', ['R1'], 'decoders read counted arrays element by element through checked primitives')]
 ASSUMPTIONS = ["CRC-32 detects all burst errors of length <= 32 bits", "struct.calcsize(fmt) >= 0; struct raises on malformed formats",
